@@ -526,6 +526,31 @@ class PrimaryOrSupplementaryVD:
 
         return (added_block, block, offset)
 
+    def remove_rr_ce_entry(self, block, offset, length):
+        # type: (rockridge.RockRidgeContinuationBlock, int, int) -> bool
+        """
+        Remove a Rock Ridge Continuation Entry from the block it was placed in,
+        and stop tracking the block if that leaves it empty.
+
+        Parameters:
+         block - The block that the Continuation Entry was placed in.
+         offset - The offset of the Continuation Entry within the block.
+         length - The length of the Continuation Entry.
+        Returns:
+         True if the block was removed, False otherwise.
+        """
+        if not self._initialized:
+            raise pycdlibexception.PyCdlibInternalError('This Primary Volume Descriptor is not initialized')
+
+        block.remove_entry(offset, length)
+        if block.is_empty():
+            for index, blk in enumerate(self.rr_ce_blocks):
+                if blk is block:
+                    del self.rr_ce_blocks[index]
+                    return True
+
+        return False
+
     def clear_rr_ce_entries(self):
         # type: () -> None
         """
